@@ -556,11 +556,11 @@ func checkC04(c *Check) {
 	// A-label / U-label spelling" is a statement about the two lookup-key functions: every value they return on success
 	// has been IDNA-decoded, NFC-normalised and lower-cased. That is C17's rule R4 (and R3, purity), evaluated here for
 	// the functions the selectors use.
-	c.Rule("R6", "the lookup-key functions the rule tables and the selectors share (address.ForLookup, dns.ForLookup) return only values that passed IDNA decoding, NFC and lower-casing on every path, and read no mutable state (C17.R3/R4)", 4)
+	c.Rule("R6", "the lookup-key functions the rule tables and the selectors share (address.ForLookup, dns.ForLookup) return only values that passed IDNA decoding, NFC and lower-casing on every path, and read no mutable state; the IDNA decoder is given an ASCII-lowered name (C17.R3/R4/R4c)", 4)
 	sub := newCheck("C17", c.P, c.Tier)
 	checkC17(sub)
 	for _, o := range sub.obs {
-		if (o.Rule != "R3" && o.Rule != "R4") || !strings.Contains(o.Key, "ForLookup") {
+		if (o.Rule != "R3" && o.Rule != "R4" && o.Rule != "R4c") || !strings.Contains(o.Key, "ForLookup") {
 			continue
 		}
 		c.Hold("R6", o.Rule+":"+o.Key, o.posRaw, o.OK, o.Msg)
